@@ -30,7 +30,8 @@ GEN = ['IoShapes']
 RULE = ('kill cases: an append history of n <= 6 (quick) / 20 (thorough) arrays over 1..4 names (overwrites, half of them with the same shape as the array they replace), random shapes incl. '
         'empty arrays and data crossing the 512-byte block size, a writer subprocess SIGKILLed after the k-th completed append for '
         'each k in 0..n; store cases: generated datasets with several feature types, image names with nested folders, packed kind '
-        'by kind. distinct non-trivial = distinct (history, k) with k >= 1, and distinct stores')
+        'by kind, a third of them after a de-duplication history (two images of a type sharing one inode, or a symbolic link to the '
+        'sibling: stored by tar as link members). distinct non-trivial = distinct (history, k) with k >= 1, and distinct stores')
 ASSUMPTIONS = [
     'that bytes handed to the OS by flush() survive SIGKILL of the writer is an operating-system fact: it is observed on every '
     'run, not proved (the theorem is about the append log)',
@@ -96,7 +97,8 @@ def cases(rng, tier):
                                        'records_gyroscope', 'records_magnetic', 'records_lidar', 'records_depth', 'rigs', 'trajectories'})
         # how the folder is packed: bare member names (what add_array_to_tar writes), or what `tar -cf x.tar -C folder .`
         # produces (a '.' entry, directory entries, './'-prefixed names), or names with a doubled / and a './' inside
-        out.append({'op': 'store', 'd': kgen.gen_dataset(rng, opts), 'pack': rng.choice(['bare', 'dot', 'dot', 'odd'])})
+        out.append({'op': 'store', 'd': kgen.gen_dataset(rng, opts), 'pack': rng.choice(['bare', 'dot', 'dot', 'odd']),
+                    'links': rng.choice([0, 0, rng.randrange(1, 10 ** 6)])})
     return out
 
 
@@ -148,6 +150,21 @@ def _store(c):
     try:
         root = os.path.join(base, 'k')
         kgen.write_dataset(c['d'], root, 's')
+        if c.get('links'):
+            # a feature folder that went through a de-duplication tool (cp -al, hardlink, jdupes -L): two images of one type whose
+            # files are ONE inode — or a symbolic link to the sibling; `tar` / tarfile.add store the second name as a link member
+            lrng = __import__('random').Random(c['links'])
+            for kind, ext in (('keypoints', '.kpt'), ('descriptors', '.desc'), ('global_features', '.gfeat'), ('matches', '.matches')):
+                kdir = os.path.join(root, 'reconstruction', kind)
+                for ty in (sorted(os.listdir(kdir)) if os.path.isdir(kdir) else []):
+                    files = sorted(os.path.join(dp, fn) for dp, _, fns in os.walk(os.path.join(kdir, ty)) for fn in fns if fn.endswith(ext))
+                    if len(files) >= 2 and lrng.random() < 0.7:
+                        a_, b_ = lrng.sample(files, 2)
+                        os.remove(b_)
+                        if lrng.random() < 0.7:
+                            os.link(a_, b_)
+                        else:
+                            os.symlink(os.path.relpath(a_, os.path.dirname(b_)), b_)
         th = get_all_tar_handlers(root)
         try:
             as_dir = kgen.describe(kapture_from_dir(root, tar_handlers=th))
